@@ -506,6 +506,18 @@ class StealthScenario(ChangeScenario):
         calls = [p for _, k, p in env.obs if k == 'call' and p.get('name') in unmatched]
         if calls:
             out.append(self.viol(env, 'unmatched-invoked', f"handlers {sorted({p['id'] for p in calls})} invoked for unmatched objects", clause='exact'))
+        # an object that USED to match and does not any more is nobody's business either: the finalizer it was given goes away, and its deletion
+        # is not held up (judged where the world is quiet: the last edit is long ago, nothing is owed)
+        t_last = max([t for t, k, _ in env.obs if k in ('user', 'kill', 'start')] + [0.0])
+        if not env.owes() and env.end_reason == 'horizon' and env.now >= t_last + 8 and not any(c.split(':')[0] == 'time' for _, c in env.deviations) \
+                and not self.carveouts(env) and env.memo.get('pipeline') is not None:
+            from kv.harness.change import FINALIZER
+            for n in self.params.get('unmatched_later', []):
+                obj = env.world.get(self.kind, 'ns', n)
+                if obj is not None and FINALIZER in (obj['metadata'].get('finalizers') or []):
+                    out.append(self.viol(env, 'finalizer-left-on-unmatched', f"object {n} matches no handler since t={t_last} at the latest; it still carries the framework's finalizer"
+                                                                             + (" and is marked for deletion: it cannot go away" if 'deletionTimestamp' in obj['metadata'] else ""),
+                                         clause='stealth', deleting='deletionTimestamp' in obj['metadata']))
         matched = {n for n in self.params['matched']} if not env.owes() else set()
         for n in matched:
             if not any(p.get('name') == n for _, k, p in env.obs if k == 'call'):
@@ -540,6 +552,14 @@ def stealth_scenarios(tier: str) -> list[StealthScenario]:
         user += [(6.0, 'restart'), (9.0, 'delete', 'n')]
         out.append(StealthScenario(handlers=handlers, user=user, horizon=20.0, matched=['m'], unmatched=['n'],
                                    settings={'persistence__consistency_timeout': 5.0}))
+        if f.get('labels') == {'on': 'yes'}:
+            # an object that matches at first (it is handled, it gets the finalizer) and is then relabelled so that nothing matches it
+            # any more - with and without daemons / timers in the registry, then left alone or deleted
+            for hs in (handlers, [h for h in handlers if h['on'] not in ('daemon', 'timer')], [h for h in handlers if h['on'] in ('create', 'delete')]):
+                for tail in ([], [(12.0, 'delete', 'z')], [(6.0, 'delete', 'z')], [(12.0, 'restart',)], [(12.0, 'label', 'z', 'on', 'yes'), (16.0, 'label', 'z', 'on', 'no'), (20.0, 'delete', 'z')]):
+                    user2 = [(1.0, 'createl', 'z', 'on', 'yes'), (1.0, 'create', 'n'), (5.0, 'label', 'z', 'on', 'no')] + tail
+                    out.append(StealthScenario(handlers=hs, user=user2, horizon=max(u[0] for u in user2) + 12.0, matched=['z'], unmatched=['n'], unmatched_later=['z'],
+                                               settings={'persistence__consistency_timeout': 5.0}))
     return out
 
 
